@@ -1144,6 +1144,10 @@ def single_edits(cmds):
             yield "%s: line %r inserted before" % (head, pl), {i: dict(pre=[pl])}
         for p in range(1, len(toks)):
             yield "%s: backslash before token %d" % (head, p), {i: dict(breaks={p: "bs"})}
+        if len(toks) > 1:   # a genuine trailing comment on the last line of a backslash-continued command
+            for cm in COMMENTS:
+                yield "%s: backslash before token %d and trailing comment %r" % (head, len(toks) - 1, cm), \
+                    {i: dict(breaks={len(toks) - 1: "bs"}, comment=cm)}
         for p in range(1, len(toks)):
             yield "%s: backslash+tab-indented continuation before token %d" % (head, p), \
                 {i: dict(breaks={p: "bs"}, cont_indent="\t")}
@@ -1392,6 +1396,26 @@ def gen_need_lines():
 
 
 # ----------------------------------------------------------------------------- C16 multi-file programs
+
+# quoted strings holding what looks like layout syntax: ` #` after a blank, `#` first, single quotes, a backslash
+# as the last character inside the quotes - the edits put line breaks and backslashes right next to them
+RUNNABLE["quotes"] = """house h
+init .q.note with "lap #0"
+framer main be active first a
+  frame a
+    do rec with tag "a #1" at enter
+    put "lap #1" into .q.note
+    put "#start" into .q.first
+    put 'single #2 quoted' into .q.single
+    put "c:\\dir\\" into .q.path
+    put "tail \\" into .q.tail
+    print hello "quoted #3 text" world
+    go b if .q.note == "lap #1" and .q.first == "#start"
+  frame b
+    do rec with tag "#b" at enter
+    put "x # y" into .q.z
+    copy .q.z into .q.w
+"""
 
 MULTI = odict([
     ("loadfrag", dict(parent="""house h
